@@ -948,4 +948,465 @@ theorem read_step_mistyped (rd : Ty → Bytes → Option (GoVal × Bytes)) (defs
   have hc0 : u.ttype.code ≠ 0 := by have := TType.code_pos u.ttype; omega
   simp only [readFieldsWith, hc0, if_false, readN_be 2 id _ hid, hf, hne, skipW_encW u rest hwf hd]
 
+theorem skipW_append (c : Nat) (bs r y : Bytes) (h : skipW c bs = some r) : skipW c (bs ++ y) = some (r ++ y) := by
+  unfold skipW at h ⊢
+  cases ht : TType.ofCode c with
+  | none => simp [ht] at h
+  | some t =>
+    simp only [ht] at h ⊢
+    cases hd : decW 64 t bs with
+    | none => simp [hd] at h
+    | some p =>
+      obtain ⟨w, r'⟩ := p
+      simp only [hd, Option.map_some, Option.some.injEq] at h
+      simp [decW_append 64 t bs w r' y hd, h]
+
+theorem readScalar_append (ty : Ty) : AppOK (readScalar ty) := by
+  intro bs x r y h
+  cases ty <;> simp only [readScalar] at h ⊢
+  case str | bin =>
+    cases h1 : readN 4 bs with
+    | none => simp [h1] at h
+    | some p =>
+      obtain ⟨n, r1⟩ := p
+      simp only [h1] at h
+      simp only [readN_append 4 bs y n r1 h1]
+      split at h
+      · cases h
+      · rename_i hn
+        simp only [hn, if_false]
+        cases h2 : readBytes n r1 with
+        | none => simp [h2] at h
+        | some q =>
+          obtain ⟨b, r2⟩ := q
+          simp only [h2, Option.map_some, Option.some.injEq, Prod.mk.injEq] at h
+          simp only [readBytes_app n r1 y b r2 h2, Option.map_some, Option.some.injEq, Prod.mk.injEq]
+          exact ⟨h.1, by rw [h.2]⟩
+  case list | set | map | struct => cases h
+  all_goals
+    simp only [Option.map_eq_some_iff, Prod.mk.injEq, Prod.exists] at h ⊢
+    obtain ⟨a, b, h1, h2, h3⟩ := h
+    exact ⟨a, b ++ y, readN_append _ bs y a b h1, h2, by rw [h3]⟩
+
+theorem readListWith_append (d : Bytes → Option (GoVal × Bytes)) (hd : AppOK d) :
+    ∀ n, AppOK (readListWith d n) := by
+  intro n
+  induction n with
+  | zero => intro bs x r y h; simp [readListWith] at h ⊢; exact ⟨h.1, by rw [h.2]⟩
+  | succ n ih =>
+    intro bs x r y h
+    simp only [readListWith] at h ⊢
+    cases h1 : d bs with
+    | none => simp [h1] at h
+    | some p =>
+      obtain ⟨a, r1⟩ := p
+      simp only [h1] at h
+      rw [hd bs a r1 y h1]
+      cases h2 : readListWith d n r1 with
+      | none => simp [h2] at h
+      | some q =>
+        obtain ⟨xs, r2⟩ := q
+        simp only [h2, Option.some.injEq, Prod.mk.injEq] at h
+        simp only [ih r1 xs r2 y h2, Option.some.injEq, Prod.mk.injEq]
+        exact ⟨h.1, by rw [h.2]⟩
+
+theorem readPairsWith_append (dk dv : Bytes → Option (GoVal × Bytes)) (hk : AppOK dk) (hv : AppOK dv) :
+    ∀ n, AppOK (readPairsWith dk dv n) := by
+  intro n
+  induction n with
+  | zero => intro bs x r y h; simp [readPairsWith] at h ⊢; exact ⟨h.1, by rw [h.2]⟩
+  | succ n ih =>
+    intro bs x r y h
+    simp only [readPairsWith] at h ⊢
+    cases h1 : dk bs with
+    | none => simp [h1] at h
+    | some p =>
+      obtain ⟨a, r1⟩ := p
+      simp only [h1] at h
+      rw [hk bs a r1 y h1]
+      cases h1' : dv r1 with
+      | none => simp [h1'] at h
+      | some p' =>
+        obtain ⟨b, r1'⟩ := p'
+        simp only [h1'] at h
+        simp only [hv r1 b r1' y h1']
+        cases h2 : readPairsWith dk dv n r1' with
+        | none => simp [h2] at h
+        | some q =>
+          obtain ⟨xs, r2⟩ := q
+          simp only [h2, Option.some.injEq, Prod.mk.injEq] at h
+          simp only [ih r1' xs r2 y h2, Option.some.injEq, Prod.mk.injEq]
+          exact ⟨h.1, by rw [h.2]⟩
+
+/-- the Read loop is insensitive to appended input and to extra gas -/
+theorem readFieldsWith_append (rd : Ty → Bytes → Option (GoVal × Bytes)) (hrd : ∀ t, AppOK (rd t))
+    (defs : List FieldDef) :
+    ∀ g bs cur seen fs r y g', readFieldsWith rd defs g bs cur seen = some (fs, r) → g ≤ g' →
+      readFieldsWith rd defs g' (bs ++ y) cur seen = some (fs, r ++ y) := by
+  intro g
+  induction g with
+  | zero => intro bs cur seen fs r y g' h; simp [readFieldsWith] at h
+  | succ g ih =>
+    intro bs cur seen fs r y g' h hg
+    cases g' with
+    | zero => omega
+    | succ g' =>
+    cases bs with
+    | nil => simp [readFieldsWith] at h
+    | cons c bs =>
+      simp only [readFieldsWith, List.cons_append] at h ⊢
+      split at h
+      · rename_i hc
+        simp only [hc, if_true]
+        split at h
+        · rename_i hro
+          simp only [Option.some.injEq, Prod.mk.injEq] at h
+          simp only [hro, if_true, Option.some.injEq, Prod.mk.injEq]
+          exact ⟨h.1, by rw [h.2]⟩
+        · cases h
+      · rename_i hc
+        simp only [hc, if_false]
+        cases h1 : readN 2 bs with
+        | none => simp [h1] at h
+        | some p =>
+          obtain ⟨id, r1⟩ := p
+          simp only [h1] at h
+          simp only [readN_append 2 bs y id r1 h1]
+          cases hf : findField defs id with
+          | none =>
+            simp only [hf] at h ⊢
+            cases hs : skipW c r1 with
+            | none => simp [hs] at h
+            | some r2 =>
+              simp only [hs] at h
+              simp only [skipW_append c r1 r2 y hs]
+              exact ih r2 cur seen fs r y g' h (by omega)
+          | some jf =>
+            obtain ⟨j, f⟩ := jf
+            simp only [hf] at h ⊢
+            split at h
+            · rename_i hty
+              simp only [hty, if_true]
+              cases h2 : rd f.ty r1 with
+              | none => simp [h2] at h
+              | some q =>
+                obtain ⟨v, r2⟩ := q
+                simp only [h2] at h
+                simp only [hrd f.ty r1 v r2 y h2]
+                exact ih r2 _ _ fs r y g' h (by omega)
+            · rename_i hty
+              simp only [hty, if_false]
+              cases hs : skipW c r1 with
+              | none => simp [hs] at h
+              | some r2 =>
+                simp only [hs] at h
+                simp only [skipW_append c r1 r2 y hs]
+                exact ih r2 cur seen fs r y g' h (by omega)
+
+theorem readTy_append (S : List StructDef) : ∀ (f : Nat) (ty : Ty), AppOK (readTy S f ty) := by
+  intro f
+  induction f with
+  | zero => intro ty bs x r y h; simp [readTy] at h
+  | succ f ih =>
+    intro ty bs x r y h
+    cases ty with
+    | list e | set e =>
+      simp only [readTy] at h ⊢
+      cases bs with
+      | nil => simp at h
+      | cons c bs =>
+      simp only [List.cons_append] at h ⊢
+      cases h1 : readN 4 bs with
+      | none => simp [h1] at h
+      | some p =>
+        obtain ⟨n, r1⟩ := p
+        simp only [h1] at h
+        simp only [readN_append 4 bs y n r1 h1]
+        split at h
+        · cases h
+        · rename_i hn
+          simp only [hn, if_false]
+          cases h2 : readListWith (readTy S f e) n r1 with
+          | none => simp [h2] at h
+          | some q =>
+            obtain ⟨xs, r2⟩ := q
+            simp only [h2, Option.map_some, Option.some.injEq, Prod.mk.injEq] at h
+            simp only [readListWith_append _ (ih e) n r1 xs r2 y h2, Option.map_some, Option.some.injEq, Prod.mk.injEq]
+            exact ⟨h.1, by rw [h.2]⟩
+    | map k v =>
+      simp only [readTy] at h ⊢
+      cases bs with
+      | nil => simp at h
+      | cons c bs =>
+      cases bs with
+      | nil => simp at h
+      | cons c2 bs =>
+      simp only [List.cons_append] at h ⊢
+      cases h1 : readN 4 bs with
+      | none => simp [h1] at h
+      | some p =>
+        obtain ⟨n, r1⟩ := p
+        simp only [h1] at h
+        simp only [readN_append 4 bs y n r1 h1]
+        split at h
+        · cases h
+        · rename_i hn
+          simp only [hn, if_false]
+          cases h2 : readPairsWith (readTy S f k) (readTy S f v) n r1 with
+          | none => simp [h2] at h
+          | some q =>
+            obtain ⟨xs, r2⟩ := q
+            simp only [h2, Option.map_some, Option.some.injEq, Prod.mk.injEq] at h
+            simp only [readPairsWith_append _ _ (ih k) (ih v) n r1 xs r2 y h2, Option.map_some, Option.some.injEq, Prod.mk.injEq]
+            exact ⟨h.1, by rw [h.2]⟩
+    | struct i =>
+      simp only [readTy] at h ⊢
+      cases hs : S[i]? with
+      | none => simp [hs] at h
+      | some sd =>
+        simp only [hs, newX_eq] at h ⊢
+        cases h1 : readFieldsWith (readTy S f) sd.fields (bs.length + 1) bs (initVals sd) (sd.fields.map fun _ => false) with
+        | none => simp [h1] at h
+        | some q =>
+          obtain ⟨fs, r1⟩ := q
+          simp only [h1, Option.map_some, Option.some.injEq, Prod.mk.injEq] at h
+          have := readFieldsWith_append (readTy S f) ih sd.fields (bs.length + 1) bs _ _ fs r1 y ((bs ++ y).length + 1) h1 (by simp)
+          simp only [this, Option.map_some, Option.some.injEq, Prod.mk.injEq]
+          exact ⟨h.1, by rw [h.2]⟩
+    | bool | i8 | i16 | i32 | i64 | dbl | str | bin | enum =>
+      simp only [readTy] at h ⊢
+      exact readScalar_append _ bs x r y h
+
+
+/-- a field stream `ms` that is the written fields `ws` (in order) interleaved with fields whose ids the
+schema does not know (each well-formed and within the protocol's Skip depth) -/
+inductive Mixed (defs : List FieldDef) : List (Nat × WVal) → List (Nat × WVal) → Prop
+  | nil : Mixed defs [] []
+  | known (x : Nat × WVal) (ws ms : List (Nat × WVal)) : Mixed defs ws ms → Mixed defs (x :: ws) (x :: ms)
+  | unknown (id : Nat) (u : WVal) (ws ms : List (Nat × WVal)) : Mixed defs ws ms → id < 256 ^ 2 →
+      findField defs id = none → WF u → u.depth ≤ 64 → Mixed defs ws ((id, u) :: ms)
+
+theorem Mixed.refl (defs : List FieldDef) : ∀ ws, Mixed defs ws ws
+  | [] => .nil
+  | x :: ws => .known x ws ws (Mixed.refl defs ws)
+
+/-- uniform per-field round-trip fact: one read-back value for every continuation -/
+def RTu (P : Prog) (rd : Ty → Bytes → Option (GoVal × Bytes)) (dmax : Nat) (ty : Ty) (v : GoVal) : Prop :=
+  ∀ w, WT P.structs ty v → toW P ty v = .ok w → w.depth ≤ dmax → ∃ v', (∀ r, rd ty (encW w ++ r) = some (v', r)) ∧
+    toW P ty v' = .ok w ∧ v' ≠ .nil ∧ (ty.isBase → v ≠ .nil → v' = v)
+
+def IHu (P : Prog) (rd : Ty → Bytes → Option (GoVal × Bytes)) (dmax : Nat) : List FieldDef → List GoVal → Prop
+  | f :: fs, v :: vs => RTu P rd dmax f.ty v ∧ IHu P rd dmax fs vs
+  | _, _ => True
+
+theorem RTu_of_RTv (P : Prog) (rd : Ty → Bytes → Option (GoVal × Bytes)) (hrd : ∀ t, AppOK (rd t)) (dmax : Nat)
+    (ty : Ty) (v : GoVal) (h : RTv P rd dmax ty v) : RTu P rd dmax ty v := by
+  intro w hwt hw hd
+  obtain ⟨v', h1, h2, h3, h4⟩ := h w hwt hw hd []
+  refine ⟨v', fun r => ?_, h2, h3, h4⟩
+  have := hrd ty (encW w ++ []) v' [] r h1
+  simpa using this
+
+theorem IHu_of_IHs (P : Prog) (rd : Ty → Bytes → Option (GoVal × Bytes)) (hrd : ∀ t, AppOK (rd t)) (dmax : Nat) :
+    ∀ (fs : List FieldDef) (vs : List GoVal), IHs P rd dmax fs vs → IHu P rd dmax fs vs
+  | [], _, _ => by simp [IHu]
+  | _ :: _, [], _ => by simp [IHu]
+  | f :: fs, v :: vs, h => by
+    simp only [IHs] at h
+    simp only [IHu]
+    exact ⟨RTu_of_RTv P rd hrd dmax f.ty v h.1, IHu_of_IHs P rd hrd dmax fs vs h.2⟩
+
+/-- the shape of a mixed stream: unknown fields, then either the end or the next written field -/
+theorem Mixed.split (defs : List FieldDef) : ∀ ws ms, Mixed defs ws ms →
+    ∃ us ms', ms = us ++ ms' ∧ Mixed defs [] us ∧
+      ((ws = [] ∧ ms' = []) ∨ ∃ x ws' ms'', ws = x :: ws' ∧ ms' = x :: ms'' ∧ Mixed defs ws' ms'') := by
+  intro ws ms h
+  induction h with
+  | nil => exact ⟨[], [], rfl, .nil, Or.inl ⟨rfl, rfl⟩⟩
+  | known x ws ms h _ => exact ⟨[], x :: ms, rfl, .nil, Or.inr ⟨x, ws, ms, rfl, rfl, h⟩⟩
+  | unknown id u ws ms _ h1 h2 h3 h4 ih =>
+    obtain ⟨us, ms', e, hu, hr⟩ := ih
+    exact ⟨(id, u) :: us, ms', by simp [e], .unknown id u [] us hu h1 h2 h3 h4, hr⟩
+
+/-- a run of unknown fields is consumed without touching the loop state -/
+theorem run_unknowns (rd : Ty → Bytes → Option (GoVal × Bytes)) (defs : List FieldDef) :
+    ∀ (us : List (Nat × WVal)), Mixed defs [] us → ∀ (g : Nat) (rest : Bytes) (cur : List GoVal) (seen : List Bool),
+      readFieldsWith rd defs (g + us.length) (encFields us ++ rest) cur seen = readFieldsWith rd defs g rest cur seen := by
+  intro us h
+  generalize hws : ([] : List (Nat × WVal)) = ws at h
+  induction h with
+  | nil => intro g rest cur seen; simp [encFields]
+  | known x ws ms _ _ => cases hws
+  | unknown id u ws ms _ h1 h2 h3 h4 ih =>
+    intro g rest cur seen
+    have := ih hws g rest cur seen
+    simp only [encFields, List.length_cons, List.append_assoc, List.cons_append, List.nil_append]
+    rw [← Nat.add_assoc, read_step_unknown rd defs (g + ms.length) id u _ cur seen h1 h2 h3 h4]
+    exact this
+
+
+theorem encFields_append : ∀ (a b : List (Nat × WVal)), encFields (a ++ b) = encFields a ++ encFields b
+  | [], b => by simp [encFields]
+  | (i, v) :: a, b => by simp [encFields, encFields_append a b]
+
+theorem loop_rt_mixed (P : Prog) (rd : Ty → Bytes → Option (GoVal × Bytes)) (dmax : Nat) :
+    ∀ (suf : List FieldDef) (svs : List GoVal) (ws : List (Nat × WVal)),
+      toWFields P suf svs = .ok ws → depthFields ws ≤ dmax → IHu P rd dmax suf svs →
+      WTFields P.structs suf svs → (∀ f ∈ suf, DfltOpt f) →
+      ∀ (pre : List FieldDef) (cpre csuf : List GoVal) (spre ssuf : List Bool),
+        ((pre ++ suf).map idOf).Nodup → cpre.length = pre.length → spre.length = pre.length →
+        csuf.length = suf.length → ssuf.length = suf.length → Unset suf csuf →
+        ∃ csuf' ssuf', csuf'.length = suf.length ∧ ssuf'.length = suf.length ∧
+          toWFields P suf csuf' = .ok ws ∧ ReqSeen suf ssuf' ∧
+          ∀ (ms : List (Nat × WVal)) (gas : Nat) (rest : Bytes), Mixed (pre ++ suf) ws ms → ms.length < gas →
+            readFieldsWith rd (pre ++ suf) gas (encFields ms ++ rest) (cpre ++ csuf) (spre ++ ssuf)
+              = readFieldsWith rd (pre ++ suf) (gas - ms.length) rest (cpre ++ csuf') (spre ++ ssuf') := by
+  intro suf
+  induction suf with
+  | nil =>
+    intro svs ws h _ _ _ _ pre cpre csuf spre ssuf _ _ _ hc hs _
+    cases svs with
+    | cons v vs => simp [toWFields] at h
+    | nil =>
+      simp only [toWFields] at h; cases h
+      have : csuf = [] := List.eq_nil_of_length_eq_zero hc
+      have : ssuf = [] := List.eq_nil_of_length_eq_zero hs
+      subst_vars
+      refine ⟨[], [], rfl, rfl, by simp [toWFields], trivial, ?_⟩
+      intro ms gas rest hm hg
+      have := run_unknowns rd (pre ++ []) ms hm (gas - ms.length) rest (cpre ++ []) (spre ++ [])
+      have e : gas - ms.length + ms.length = gas := by omega
+      rw [e] at this
+      exact this
+  | cons f fs ih =>
+    intro svs ws h hdep hih hwt hdo pre cpre csuf spre ssuf hnd hcp hsp hc hs hun
+    cases svs with
+    | nil => simp [toWFields] at h
+    | cons v vs =>
+    cases csuf with
+    | nil => simp at hc
+    | cons c cs =>
+    cases ssuf with
+    | nil => simp at hs
+    | cons b bs =>
+    simp only [List.length_cons, Nat.add_right_cancel_iff] at hc hs
+    simp only [IHu] at hih
+    simp only [WTFields] at hwt
+    simp only [Unset] at hun
+    obtain ⟨hopt, hreq, hid, hwtr⟩ := hwt
+    have hassoc : pre ++ f :: fs = (pre ++ [f]) ++ fs := by simp
+    simp only [toWFields] at h
+    split at h
+    · -- skipped
+      rename_i hcond
+      simp only [Bool.and_eq_true, decide_eq_true_eq, Bool.not_eq_true'] at hcond
+      obtain ⟨csuf', ssuf', hl1, hl2, htw, hrs, hrun⟩ :=
+        ih vs ws h hdep hih.2 hwtr (fun g hg => hdo g (by simp [hg])) (pre ++ [f]) (cpre ++ [c]) cs (spre ++ [b]) bs
+          (by rw [← hassoc]; exact hnd) (by simp [hcp]) (by simp [hsp]) hc hs hun.2
+      refine ⟨c :: csuf', b :: ssuf', by simp [hl1], by simp [hl2], ?_, ?_, ?_⟩
+      · simp only [toWFields]
+        have : isSet f c = false := hun.1 hcond.1
+        simp [hcond.1, this, htw]
+      · simp only [ReqSeen]
+        exact ⟨fun e => (by rw [hcond.1] at e; cases e), hrs⟩
+      · intro ms gas rest hm hg
+        have := hrun ms gas rest (by rw [← hassoc]; exact hm) hg
+        simp only [List.append_assoc, List.singleton_append] at this
+        rw [hassoc]; simpa using this
+    · -- written
+      rename_i hcond
+      simp only [Res.bind_eq_ok] at h
+      obtain ⟨w, hw, ws', hws', hcons⟩ := h
+      cases hcons
+      simp only [depthFields] at hdep
+      have hwtv : WT P.structs f.ty v := by
+        by_cases ho : f.req = .optional
+        · rcases hopt ho with hn | hw'
+          · simp [ho, hn.2] at hcond
+          · exact hw'
+        · exact hreq ho
+      obtain ⟨_, htt⟩ := toW_WF P v f.ty w hwtv hw
+      obtain ⟨v', hrd, htw', hnn, hidv⟩ := hih.1 w hwtv hw (by omega)
+      obtain ⟨csuf', ssuf', hl1, hl2, htw, hrs, hrun⟩ :=
+        ih vs ws' hws' (by omega) hih.2 hwtr (fun g hg => hdo g (by simp [hg])) (pre ++ [f]) (cpre ++ [v']) cs (spre ++ [true]) bs
+          (by rw [← hassoc]; exact hnd) (by simp [hcp]) (by simp [hsp]) hc hs hun.2
+      refine ⟨v' :: csuf', true :: ssuf', by simp [hl1], by simp [hl2], ?_, ?_, ?_⟩
+      · simp only [toWFields]
+        have hnc : (f.req = .optional && !isSet f v') = false := by
+          by_cases ho : f.req = .optional
+          · have hsv : isSet f v = true := by
+              cases hh : isSet f v
+              · simp [ho, hh] at hcond
+              · rfl
+            have := isSet_readback P f v v' w (hdo f (by simp)) ho hsv hw htw' hnn hidv
+            simp [this]
+          · simp [ho]
+        simp only [hnc, htw', htw]
+        rfl
+      · simp only [ReqSeen]
+        exact ⟨fun _ => trivial, hrs⟩
+      · intro ms gas rest hm hg
+        obtain ⟨us, ms', e, hus, halt⟩ := Mixed.split (pre ++ f :: fs) _ ms hm
+        rcases halt with ⟨he, _⟩ | ⟨x, ws2, ms'', hx, hms', hm''⟩
+        · cases he
+        · cases hx
+          subst hms'
+          subst e
+          simp only [List.length_append, List.length_cons] at hg ⊢
+          have hc0 : w.ttype.code ≠ 0 := by have := TType.code_pos w.ttype; omega
+          have hidlt : idOf f < 256 ^ 2 := by
+            have := pat_lt 16 f.id; have := pow256.2.1; simp only [idOf]; omega
+          have hff := findField_append pre f fs hnd
+          have hset1 : (cpre ++ c :: cs).set pre.length v' = cpre ++ v' :: cs := by
+            rw [← hcp]; exact set_append_len cpre c cs v'
+          have hset2 : (spre ++ b :: bs).set pre.length true = spre ++ true :: bs := by
+            rw [← hsp]; exact set_append_len spre b bs true
+          -- skip the unknown prefix
+          have hsk := run_unknowns rd (pre ++ f :: fs) us hus (gas - us.length) (encFields ((pat 16 f.id, w) :: ms'') ++ rest)
+            (cpre ++ c :: cs) (spre ++ b :: bs)
+          have eg : gas - us.length + us.length = gas := by omega
+          rw [eg] at hsk
+          rw [encFields_append, List.append_assoc, hsk]
+          -- one step on the written field
+          obtain ⟨g, hgg⟩ : ∃ g, gas - us.length = g + 1 := ⟨gas - us.length - 1, by omega⟩
+          rw [hgg]
+          simp only [encFields, List.append_assoc, List.cons_append, List.nil_append, readFieldsWith, hc0, if_false]
+          have hid' : pat 16 f.id = idOf f := rfl
+          rw [hid', readN_be 2 (idOf f) _ hidlt]
+          simp only [hff, htt, if_true, hrd, hset1, hset2]
+          have := hrun ms'' g rest (by rw [← hassoc]; exact hm'') (by omega)
+          simp only [List.append_assoc, List.singleton_append] at this
+          rw [hassoc]
+          have hgl : gas - (us.length + (ms''.length + 1)) = g - ms''.length := by omega
+          rw [hgl]
+          simpa using this
+
+/-- **Read with unknown fields anywhere**: one object `fs'` is what the generated Read builds from the
+written fields `ws` of a well-typed object — whatever unknown-id fields are interleaved at whatever
+positions; and that object re-encodes to exactly `ws`. -/
+theorem struct_read_mixed (P : Prog) (hP : SchemaOK P) (hv : P.validateSet = false) (i : Nat) (sd : StructDef)
+    (fs : List GoVal) (ws : List (Nat × WVal)) (f : Nat) (hsd : P.structs[i]? = some sd)
+    (hwt : WTFields P.structs sd.fields fs) (hw : toWFields P sd.fields fs = .ok ws) (hd : depthFields ws ≤ f) :
+    ∃ fs', toWFields P sd.fields fs' = .ok ws ∧
+      ∀ (ms : List (Nat × WVal)) (r : Bytes), Mixed sd.fields ws ms →
+        readTy P.structs (f + 1) (.struct i) (encFields ms ++ 0 :: r) = some (.strct fs', r) := by
+  obtain ⟨hnd, hdo, hun, _⟩ := hP i sd hsd
+  have hih := IHu_of_IHs P (readTy P.structs f) (readTy_append P.structs f) f sd.fields fs (rtFields P hP hv fs sd.fields f)
+  obtain ⟨csuf', ssuf', hl1, hl2, htw, hrs, hrun⟩ :=
+    loop_rt_mixed P (readTy P.structs f) f sd.fields fs ws hw hd hih hwt hdo [] [] (initVals sd) [] (sd.fields.map fun _ => false)
+      (by simpa using hnd) rfl rfl (by simp [initVals]) (by simp) hun
+  refine ⟨csuf', htw, ?_⟩
+  intro ms r hm
+  have hro := requiredOk_of_ReqSeen sd.fields ssuf' hrs
+  have hlen : ms.length < (encFields ms ++ 0 :: r).length + 1 := by
+    have := encFields_length ms; simp; omega
+  have := hrun ms ((encFields ms ++ 0 :: r).length + 1) (0 :: r) (by simpa using hm) hlen
+  obtain ⟨g, hg⟩ : ∃ g, (encFields ms ++ 0 :: r).length + 1 - ms.length = g + 1 :=
+    ⟨(encFields ms ++ 0 :: r).length - ms.length, by omega⟩
+  simp only [readTy, hsd, newX_eq]
+  simp only [List.nil_append] at this
+  rw [this, hg]
+  simp [readFieldsWith, hro]
+
+
 end Gen.Std
